@@ -51,6 +51,9 @@ func aggregateState(roles []Role) (s sm.State) {
 			if !callR.Critical {
 				continue
 			}
+		} else if !c.IsCritical() && c.GetState() == sm.UNKNOWN {
+			// an aggregator without critical descendants never receives a state update, it has no opinion
+			continue
 		}
 		s = s.X(c.GetState())
 	}
